@@ -121,3 +121,61 @@ func H_C14_sequence() {
 	vAssert(vFSExists(dir, "a.20250601120000"), "young-file-is-kept")
 	vReach("end")
 }
+
+//verif:witness H_C14_aging end
+//verif:bound C14 all histories over one appender under the concrete clock (max age 1 h): an own file first seen young (age 3000 s) by a scan; then 1000 s pass and the file is either left alone (now expired: the next scan must delete it) or rewritten (young again: the next scan must keep it); a second own file stays young throughout
+//verif:engine-only H_C14_aging
+func H_C14_aging() {
+	vOpt("loop", 200)
+	root := vFSRoot()
+	defer vFSCleanup()
+	dir := root + "/logs"
+	vFSMkdir(dir)
+	app := &RollingFileAppender{FileDir: dir, FileName: "a", MaxAge: 1}
+	vFSAddFile(dir, "a.20250101000000", []byte("x"), 3000, false)
+	vFSAddFile(dir, "a.20250101010000", []byte("y"), 10, false)
+	app.clearExpiredFiles()
+	vAssert(vFSExists(dir, "a.20250101000000") && vFSExists(dir, "a.20250101010000"), "young-files-are-kept")
+	vClockAdvance(1000)
+	rewritten := vChoose("rewritten", 2) == 1
+	if rewritten {
+		vFSAddFile(dir, "a.20250101000000", []byte("xx"), 0, false)
+	}
+	app.clearExpiredFiles()
+	if rewritten {
+		vAssert(vFSExists(dir, "a.20250101000000"), "file-modified-since-the-last-scan-is-judged-by-its-current-modification-time")
+	} else {
+		vAssert(!vFSExists(dir, "a.20250101000000"), "file-that-expired-since-the-last-scan-is-deleted")
+	}
+	vAssert(vFSExists(dir, "a.20250101010000"), "young-files-are-kept")
+	vReach("end")
+}
+
+//verif:witness H_C14_names end
+//verif:bound C14 all file names containing characters that are special in patterns ('app.log', 'a+b', 'a[1]'): one expired own file and six expired foreign files whose names differ from the own pattern in one position (other separator, other character where the name has a dot, 13 digits, a suffix, a prefix): exactly the own file is deleted
+func H_C14_names() {
+	vOpt("loop", 200)
+	vClockMode(2)
+	root := vFSRoot()
+	defer vFSCleanup()
+	dir := root + "/logs"
+	vFSMkdir(dir)
+	which := vChoose("fileName", 3)
+	fileName := [3]string{"app.log", "a+b", "a[1]"}[which]
+	alt := [3]string{"appxlog", "aab", "a1"}[which] // what the name would also match if read as a pattern
+	const ts = "20250101000000"
+	old := int64(3600 + 100)
+	own := fileName + "." + ts
+	foreign := []string{alt + "." + ts, fileName + "-" + ts, fileName + "." + ts[:13], own + ".gz", "x" + own, fileName + ".wf." + ts}
+	vFSAddFile(dir, own, []byte("x"), old, false)
+	for _, n := range foreign {
+		vFSAddFile(dir, n, []byte("x"), old, false)
+	}
+	app := &RollingFileAppender{FileDir: dir, FileName: fileName, MaxAge: 1}
+	app.clearExpiredFiles()
+	vAssert(!vFSExists(dir, own), "own-expired-file-is-deleted")
+	for _, n := range foreign {
+		vAssert(vFSExists(dir, n), "only-own-expired-regular-files-are-deleted")
+	}
+	vReach("end")
+}
